@@ -68,16 +68,28 @@ func (ws *wakeSignal) joinWaitList(owl *objectWaitList) {
 		signal:      ws,
 		waitList:    owl,
 		objectsPrev: ws.objectsTail,
-		queuePrev:   owl.queueTail,
 	}
 
-	// place at the end of the object's queue
-	if owl.queueTail == nil {
+	// The queue is ordered by signal id, which is the order in which the clients began
+	// to wait. A new signal has the highest id and goes to the end; a signal that rejoins
+	// after a wake-up that gave it nothing gets its old position back.
+	after := owl.queueTail
+	for after != nil && after.signal.id > ws.id {
+		after = after.queuePrev
+	}
+	ref.queuePrev = after
+	if after == nil {
+		ref.queueNext = owl.queueHead
 		owl.queueHead = ref
 	} else {
-		owl.queueTail.queueNext = ref
+		ref.queueNext = after.queueNext
+		after.queueNext = ref
 	}
-	owl.queueTail = ref
+	if ref.queueNext == nil {
+		owl.queueTail = ref
+	} else {
+		ref.queueNext.queuePrev = ref
+	}
 
 	// track in the wake signal's list of lists
 	if ws.objectsTail == nil {
@@ -163,6 +175,21 @@ func (wt *waitTable) enterMultiWait(names []string) (ws *wakeSignal) {
 	}
 
 	return
+}
+
+// puts a wake signal, which a wake-up took out of all wait lists, back into the
+// wait lists of the named objects
+func (wt *waitTable) reenterWait(ws *wakeSignal, names []string) {
+	for _, name := range names {
+		list, exists := wt.table[name]
+		if !exists {
+			list = &objectWaitList{
+				name: name,
+			}
+			wt.table[name] = list
+		}
+		ws.joinWaitList(list)
+	}
 }
 
 // Removes a client wake signal from all wait lists it is in, because
